@@ -9,6 +9,8 @@ claimed = set()
 for f in sorted(os.listdir(os.path.join(vcheck.VERIF, "props"))):
     if f.endswith(".py") and f[0] == "C":
         cfg = importlib.import_module(f[:-3])
+        if not getattr(cfg, 'CLAIM', True):
+            continue
         claimed.add(cfg.ID)
         checks.append({
             "property_id": cfg.ID,
